@@ -590,6 +590,132 @@ def explore_schedules(ctx: Ctx, pairs: bool) -> Result:
     return res
 
 
+# ------------------------------------------------------------------------------------------ P: two processes
+
+
+def run_proc_schedule(path: str, pre: List[int], a_batch: int, step_n: int, op: str, b_batch: int, res: Result, case: Dict[str, Any]) -> bool:
+    """The writer is a separate PROCESS (forked, its own SQLiteStore.make_store connection, real file locks between
+    processes), paused by the explorer at VM step `step_n` of its batch insert; while it is paused this process performs
+    `op` on its own connection (timeout 0), then the writer is released. Returns whether the pause point was reached."""
+    from monkeytype.db.sqlite import SQLiteStore
+
+    stores, model = apply_history(path, [("add", 0, b) for b in pre])
+    stores[0].conn.close()
+    pre_model = collections.Counter(model)
+    a_rows = [r for r in (row_of(s_) for s_ in BATCHES[a_batch]) if r is not None]
+    b_rows = [r for r in (row_of(s_) for s_ in BATCHES[b_batch]) if r is not None]
+    post_a = pre_model + collections.Counter(a_rows)
+    r1, w1 = os.pipe()
+    r2, w2 = os.pipe()
+    pid = os.fork()
+    if pid == 0:
+        code = 7
+        try:
+            os.close(r1)
+            os.close(w2)
+            st = SQLiteStore.make_store(path)
+            n = [0]
+
+            def h() -> int:
+                n[0] += 1
+                if n[0] == step_n:
+                    os.write(w1, b"p")
+                    os.read(r2, 1)
+                return 0
+
+            st.conn.set_progress_handler(h, 1)
+            try:
+                st.add([mktrace(s_) for s_ in BATCHES[a_batch]])
+                code = 0
+            except sqlite3.OperationalError as e:
+                code = 5 if ("locked" in str(e) or "busy" in str(e)) else 6
+            except Exception:  # noqa: BLE001
+                code = 6
+        finally:
+            os._exit(code)
+    os.close(w1)
+    os.close(r2)
+    reached = os.read(r1, 1) == b"p"
+    problems: List[Tuple[str, str, str]] = []
+    b_committed = 0
+    B = SQLiteStore(sqlite3.connect(path, timeout=0))
+    try:
+        if op == "filter":
+            got = collections.Counter((t.module, t.qualname, t.arg_types, t.return_type, t.yield_type) for t in B.filter("m", None, 1000))
+            cands = [collections.Counter({r: 1 for r in base if r[0] == "m"}) for base in (pre_model, post_a)]
+            if got not in cands:
+                problems.append(("isolation", "reader-sees-partial-batch", f"a reader in another process, writer paused at step {step_n}, saw {sorted(got, key=repr)}: neither the state before nor after the batch"))
+        elif op == "list_modules":
+            got_m = sorted(B.list_modules())
+            if got_m not in [sorted({r[0] for r in base}) for base in (pre_model, post_a)]:
+                problems.append(("isolation", "reader-sees-partial-batch", f"list_modules in another process, writer paused at step {step_n}: {got_m}"))
+        elif op == "add":
+            B.add([mktrace(s_) for s_ in BATCHES[b_batch]])
+            b_committed = 1
+    except sqlite3.OperationalError as e:
+        if "locked" not in str(e) and "busy" not in str(e):
+            problems.append(("exception", "second-process", f"{op} while the writer process is paused at step {step_n} raised {e!r}"))
+    except Exception as e:  # noqa: BLE001
+        problems.append(("exception", "second-process", f"{op} while the writer process is paused at step {step_n} raised {e!r}"))
+    finally:
+        B.conn.close()
+    try:
+        os.write(w2, b"g")
+    except OSError:
+        pass
+    os.close(w2)
+    os.close(r1)
+    _, status = os.waitpid(pid, 0)
+    code = os.WEXITSTATUS(status) if os.WIFEXITED(status) else -1
+    if code not in (0, 5):
+        problems.append(("exception", "writer-process", f"writer process ended with status {status} (paused at step {step_n}, other process did {op})"))
+    a_ok = code == 0
+    bpart = collections.Counter(b_rows * b_committed)
+    expect = pre_model + (collections.Counter(a_rows) if a_ok else collections.Counter()) + bpart
+    try:
+        raw = indep_rows(path)
+        if raw != expect and (a_ok or raw != pre_model + collections.Counter(a_rows) + bpart):
+            problems.append(("atomicity", "final-state-differs", f"writer process paused at step {step_n}, other process did {op}: table {sorted(raw.items(), key=repr)[:6]} != expected {sorted(expect.items(), key=repr)[:6]} (writer ok={a_ok}, other committed={b_committed})"))
+    except AssertionError as e:
+        problems.append(("corruption", "integrity", str(e)))
+    for kind, sig, msg in problems:
+        res.violate(Violation(ID, kind, sig, case, msg))
+    if not a_ok:
+        res.oblige("P:writer-process-failed-cleanly-under-contention", True)
+    if b_committed and reached:
+        res.oblige("P:other-process-committed-while-writer-paused", True)
+    res.outcomes.add(("P", a_ok, b_committed, reached))
+    return reached
+
+
+def explore_proc_schedules(ctx: Ctx) -> Result:
+    combos = [(pre, a, bb) for pre in ([], [0]) for a in ((1, 6) if ctx.quick else (1, 2, 7, 6)) for bb in (0, 3)]
+
+    def work(ctx: Ctx, combo) -> Result:
+        res = Result()
+        pre, a, bb = combo
+        path = str(ctx.tmp / f"p_{os.getpid()}.sqlite3")
+        n = 0
+        while True:
+            n += 1
+            reached = True
+            for op in B_OPS:
+                res.states += 1
+                res.evaluations += 1
+                res.validated += 1
+                res.transitions += 2
+                case = {"part": "P", "pre": pre, "a": a, "b": bb, "step": n, "op": op}
+                reached = run_proc_schedule(path, pre, a, n, op, bb, res, case)
+            if not reached or n > 400:
+                break
+        res.bounds[f"P_steps[{a}]"] = n - 1
+        if n - 1 < 10:
+            raise HarnessError(f"writer process reached only {n - 1} pause points (seam lost?)")
+        return res
+
+    return run_shards(ctx, work, combos)
+
+
 # ------------------------------------------------------------------------------------------ K: crash points
 
 
@@ -824,12 +950,13 @@ def run(ctx: Ctx) -> Result:
     res.merge(explore_histories(ctx, 3 if ctx.quick else 4))
     res.merge(explore_extras(ctx))
     res.merge(explore_schedules(ctx, pairs=not ctx.quick))
+    res.merge(explore_proc_schedules(ctx))
     res.merge(explore_crashes(ctx, syscalls=not ctx.quick))
     res.merge(explore_faults(ctx))
     for o in (
         "H:query-distinguishing-LIKE-from-prefix", "H:state-with-duplicates", "H:multi-connection-state",
         "X:same-row-committed-on-different-days", "X:tables-with-different-modules", "X:large-batch-whole",
-        "S:second-writer-committed-inside", "K:crash-before-commit", "K:crash-after-commit", "F:abort-rolled-back",
+        "S:second-writer-committed-inside", "P:other-process-committed-while-writer-paused", "K:crash-before-commit", "K:crash-after-commit", "F:abort-rolled-back",
     ):
         res.obligations.setdefault(o, False)
     res.nontrivial_n += res.counters.get("x", 0)
@@ -866,6 +993,8 @@ def replay(case: Dict[str, Any], ctx: Ctx) -> List[Violation]:
                 check_queries(st, model, res, dict(case, conn=i), f"two-table history {hist} store {i}")
         finally:
             sq.datetime = old  # type: ignore[assignment]
+    elif part == "P":
+        run_proc_schedule(path, case["pre"], case["a"], case["step"], case["op"], case["b"], res, case)
     elif part == "S":
         run_schedule(path, case["pre"], case["a"], [tuple(e) for e in case["events"]], case["b"], res, case)
     elif part == "K":
